@@ -417,6 +417,96 @@ func c13Run(c *core.Ctx) {
 			return true
 		})
 	}
+	// (C) on token sequences: every sequence <= n with a bracket ( or [ that is not its first token, laid out with a line
+	// break in front of every such bracket (one blank elsewhere, and the all-LF layout). The role of a bracket is known
+	// from the token in front of it: after an identifier, a literal, ) or ] it would continue the expression (infix
+	// position), after an operator, a delimiter or a keyword it starts an operand. Smart mode must parse the text like
+	// default mode parses it with a ';' in front of every line-initial infix bracket. Sequences in which the token in
+	// front of a bracket does not decide the role (} ++ --) or in which ) can close a statement header or a parameter
+	// list can follow a name (if while for function) are left to the statement families, where the unparser knows.
+	{
+		operandEnd := map[string]bool{"a": true, "b": true, "1": true, "'s'": true, "`t`": true, ")": true, "]": true, "true": true, "false": true, "null": true}
+		undecided := map[string]bool{"}": true, "++": true, "--": true}
+		header := map[string]bool{"if": true, "while": true, "for": true, "function": true}
+		cls := make([]int, len(gen.TClass))
+		for i, t := range gen.TClass {
+			for j, u := range gen.T {
+				if t == u {
+					cls[i] = j
+				}
+			}
+		}
+		for L := 2; L <= 4; L++ {
+			// length 4: the class alphabet in the quick tier
+			na := len(gen.T)
+			if L == 4 && !c.Thorough() {
+				na = len(cls)
+			}
+			gen.EachSeq(na, L, func(ci []int) bool {
+				idx := ci
+				if na == len(cls) {
+					idx = make([]int, len(ci))
+					for i, x := range ci {
+						idx[i] = cls[x]
+					}
+				}
+				if !c.Next() {
+					return true
+				}
+				if c.Tick() {
+					return false
+				}
+				has := false
+				for i, x := range idx {
+					t := gen.T[x]
+					if header[t] {
+						return true
+					}
+					if i > 0 && (t == "(" || t == "[") {
+						if undecided[gen.T[idx[i-1]]] {
+							return true
+						}
+						has = true
+					}
+				}
+				if !has {
+					return true
+				}
+				for _, other := range []string{" ", "\n"} {
+					var p1, p2 strings.Builder
+					for i, x := range idx {
+						t := gen.T[x]
+						if i > 0 {
+							if t == "(" || t == "[" {
+								if operandEnd[gen.T[idx[i-1]]] {
+									p2.WriteString(" ;")
+								}
+								p1.WriteString("\n")
+								p2.WriteString("\n")
+							} else {
+								p1.WriteString(other)
+								p2.WriteString(other)
+							}
+						}
+						p1.WriteString(t)
+						p2.WriteString(t)
+					}
+					src, src2 := p1.String(), p2.String()
+					c.Cur(src)
+					c.Inc("smart_token_sequences")
+					for _, tol := range []bool{false, true} {
+						kd, d, ok := c13Same(src, Mode{Tolerant: tol, Smart: true}, src2, Mode{Tolerant: tol})
+						if ok {
+							viol("C", kd, d, src, src2, L)
+						} else {
+							c.Inc("smart_reference_rejected")
+						}
+					}
+				}
+				return true
+			})
+		}
+	}
 	// (A) tokens that span lines, followed on their last line by ( [ . or an operator
 	for _, lit := range []string{"`l1\nl2`", "`\n`", "'a\\\nb'", "`a\n\n  b`"} {
 		for _, t := range []string{"let c = %s[0]", "x = %s.length", "f(%s)[0]", "x = %s\n[0]", "x = %s + 1\n(a)", "g(%s)(b)", "x = [%s][0](1)", "x = a(%s, %s)\n(b)", "if (a) x = %s[0]\nelse y = %s", "x = %s\n(a)", "return %s[0]"} {
